@@ -16,7 +16,7 @@ def n! (s : String) : Nat := s.toNat?.getD 0
 def bl (b : Bool) : String := if b then "1" else "0"
 
 def showObs : Obs → String
-  | .tx b => s!"tx {toHex b}"
+  | .tx f => s!"tx {toHex f.bytes}"
   | .rx bc d => s!"rx {bl bc} {toHex d}"
   | .resetCU f => s!"resetcu {bl f}"
   | .st a n => s!"state {a} {n}"
@@ -38,8 +38,10 @@ def sumP (s : PriU) (q : List Nat) : String :=
 def handle (st : St) (ws : List String) : Option (St × String) :=
   match ws with
   | ["u.new", aL, tAck, tRep, single, tLink, addr, idle] =>
-    let p : Params := ⟨n! aL, n! tAck, n! tRep, single == "1", n! tLink⟩
+    if hA : n! aL ≤ 2 then
+    let p : Params := ⟨n! aL, n! tAck, n! tRep, single == "1", n! tLink, hA⟩
     some ({ st with u := some { ll := { p := p, address := n! addr }, idleTimeout := n! idle }, q := [] }, "ok")
+    else some (st, "bad-op")
   | ["u.c1", hex] => do
     let d ← parseHex hex; let s ← st.u
     pure ({ st with u := some { s with c1 := s.c1 ++ [d] } }, "ok")
@@ -51,8 +53,10 @@ def handle (st : St) (ws : List String) : Option (St × String) :=
     let (s, q, o) := s.run (st.q ++ d) (n! now)
     pure ({ st with u := some s, q := q }, render o ++ sumU s q)
   | ["b.new", aL, tAck, tRep, single, addr, other, dir, idle] =>
-    let p : Params := ⟨n! aL, n! tAck, n! tRep, single == "1", 0⟩
+    if hA : n! aL ≤ 2 then
+    let p : Params := ⟨n! aL, n! tAck, n! tRep, single == "1", 0, hA⟩
     some ({ st with b := some { ll := { p := p, address := n! addr, dir := dir == "1" }, other := n! other, idleTimeout := n! idle }, q := [] }, "ok")
+    else some (st, "bad-op")
   | ["b.out", hex] => do
     let d ← parseHex hex; let s ← st.b
     pure ({ st with b := some { s with out := s.out ++ [d] } }, "ok")
@@ -67,8 +71,10 @@ def handle (st : St) (ws : List String) : Option (St × String) :=
     let (s, q, o) := s.run (st.q ++ d) (n! now)
     pure ({ st with b := some s, q := q }, render o ++ sumB s q)
   | ["p.new", aL, tAck, tRep, single, tLink] =>
-    let p : Params := ⟨n! aL, n! tAck, n! tRep, single == "1", n! tLink⟩
+    if hA : n! aL ≤ 2 then
+    let p : Params := ⟨n! aL, n! tAck, n! tRep, single == "1", n! tLink, hA⟩
     some ({ st with p := some { ll := { p := p, address := 0 } }, q := [] }, "ok")
+    else some (st, "bad-op")
   | ["p.add", addr] => do
     let s ← st.p
     pure ({ st with p := some (s.addSlave (n! addr)) }, "ok")
